@@ -369,3 +369,152 @@ fn vp_native_declared_sizes_not_allocated() {
     } } }
     println!("VP-NATIVE declared_sizes_not_allocated cases={}", cases);
 }
+
+// ---------------------------------------------------------------- grammar-based responses with a fixed pseudo-random sequence
+/// xorshift64*: the same sequence on every run (the seeds are fixed in the tests below)
+struct Rng(u64);
+impl Rng {
+    fn next(&mut self) -> u64 { let mut x = self.0; x ^= x >> 12; x ^= x << 25; x ^= x >> 27; self.0 = x; x.wrapping_mul(0x2545F4914F6CDD1D) }
+    fn below(&mut self, n: usize) -> usize { (self.next() % n as u64) as usize }
+    fn pick<'a, T>(&mut self, xs: &'a [T]) -> &'a T { &xs[self.below(xs.len())] }
+    fn chance(&mut self, percent: usize) -> bool { self.below(100) < percent }
+}
+struct GenResponse { wire: Vec<u8>, status: u16, fields: Vec<(String, Vec<u8>)>, body: Vec<u8>, what: String }
+/// one well-formed response: status line, header fields written with random case / optional spaces / bare-LF folds / duplicates /
+/// obs-text, one of the three framings (chunked with random chunk sizes, extensions, hex case, zero padding, line endings),
+/// trailing bytes after the frame where the framing allows it.  `fields` holds what the caller must see (lower-cased names,
+/// values trimmed of surrounding spaces with folds turned into spaces, framing field Transfer-Encoding hidden).
+fn gen_response(r: &mut Rng) -> GenResponse { gen_response_coded(r, false) }
+/// the same, optionally with the payload sent gzip- or deflate-coded (declared in Content-Encoding with random spelling)
+fn gen_response_coded(r: &mut Rng, coded: bool) -> GenResponse {
+    let status = *r.pick(&[200u16, 201, 206, 301, 400, 404, 418, 500, 599, 999, 210]);
+    let version = *r.pick(&["HTTP/1.1", "HTTP/1.0"]);
+    let reason = *r.pick(&["OK", "", "Not Found", "A b c"]);
+    let mut wire = format!("{} {} {}\r\n", version, status, reason).into_bytes();
+    let mut fields: Vec<(String, Vec<u8>)> = Vec::new();
+    let names = ["X-A", "x-b", "Set-Cookie", "ETag", "X-Long-Header-Name", "Server", "x-a"];
+    let nfields = r.below(6);
+    for _ in 0..nfields {
+        let name = *r.pick(&names);
+        // value pieces: visible ASCII words, inner blanks and tabs, obs-text, an occasional bare-LF fold (inside or at an edge)
+        let mut raw: Vec<u8> = Vec::new();
+        for _ in 0..r.below(4) {
+            match r.below(7) { 0 => raw.extend_from_slice(b"word"), 1 => raw.extend_from_slice(b"a=b; c"), 2 => raw.push(b' '), 3 => raw.push(b'\t'), 4 => raw.extend_from_slice(b"\xe9\xff"), 5 => raw.extend_from_slice(b"\n "), _ => raw.extend_from_slice(b"1,2") }
+        }
+        let lead = *r.pick(&["", " ", "  "]); let trail = *r.pick(&["", " ", "   "]);
+        let written_name: String = if r.chance(30) { name.to_ascii_uppercase() } else if r.chance(30) { name.to_ascii_lowercase() } else { name.to_string() };
+        wire.extend_from_slice(written_name.as_bytes()); wire.push(b':'); wire.extend_from_slice(lead.as_bytes()); wire.extend_from_slice(&raw); wire.extend_from_slice(trail.as_bytes()); wire.extend_from_slice(b"\r\n");
+        let mut v: Vec<u8> = lead.bytes().chain(raw.iter().copied()).chain(trail.bytes()).map(|b| if b == b'\n' { b' ' } else { b }).collect();
+        while v.first() == Some(&b' ') { v.remove(0); } while v.last() == Some(&b' ') { v.pop(); }
+        fields.push((name.to_ascii_lowercase(), v));
+    }
+    let n = *r.pick(&[0usize, 1, 2, 17, 300, 5000, 70000]);
+    let payload: Vec<u8> = (0..n).map(|i| match i % 11 { 0 => b'\r', 1 => b'\n', 2 => b'0', _ => (r.next() % 256) as u8 }).collect();
+    // what goes on the wire inside the frame: the payload itself, or its gzip / deflate coding
+    let body: Vec<u8> = if !coded { payload.clone() } else {
+        use std::io::Write;
+        let level = flate2::Compression::new(r.below(10) as u32);
+        let gzip = r.chance(60);
+        let enc = if gzip { let mut e = flate2::write::GzEncoder::new(Vec::new(), level); e.write_all(&payload).unwrap(); e.finish().unwrap() }
+                  else { let mut e = flate2::write::DeflateEncoder::new(Vec::new(), level); e.write_all(&payload).unwrap(); e.finish().unwrap() };
+        let token = if gzip { *r.pick(&["gzip", "GZIP", "GZip"]) } else { *r.pick(&["deflate", "Deflate", "DEFLATE"]) };
+        let lines: Vec<String> = match r.below(6) { 0 => vec![format!("Content-Encoding: {}", token)], 1 => vec![format!("content-encoding:\t{}\t", token)], 2 => vec![format!("Content-Encoding: identity, {}", token)],
+            3 => vec!["Content-Encoding: identity".to_string(), format!("Content-Encoding: {}", token)], 4 => vec![format!("Content-Encoding:{}", token)], _ => vec![format!("CONTENT-ENCODING: x-a ,\t{} ", token)] };
+        for l in &lines { wire.extend_from_slice(l.as_bytes()); wire.extend_from_slice(b"\r\n");
+            let v = l.splitn(2, ':').nth(1).unwrap().trim_matches(' ').as_bytes().to_vec(); fields.push(("content-encoding".into(), v)); }
+        enc };
+    let n = body.len();
+    let framing = r.below(3);
+    let mut what = format!("status {} {} fields, {} body bytes, ", status, nfields, n);
+    match framing {
+        0 => { // Content-Length, possibly repeated identically, zero padded
+            let copies = 1 + r.below(2);
+            for _ in 0..copies { let v = if r.chance(30) { format!("0{}", n) } else { n.to_string() }; wire.extend_from_slice(format!("Content-Length:{}{}\r\n", r.pick(&["", " "]), v).as_bytes()); fields.push(("content-length".into(), v.into_bytes())); }
+            wire.extend_from_slice(b"\r\n"); wire.extend_from_slice(&body);
+            if r.chance(50) { wire.extend_from_slice(b"GARBAGE AFTER THE FRAME"); }
+            what.push_str("Content-Length framing");
+        }
+        1 => { // chunked as the final coding, the list possibly split over two field lines; a Content-Length that must lose
+            if r.chance(30) { wire.extend_from_slice(b"Content-Length: 3\r\n"); fields.push(("content-length".into(), b"3".to_vec())); }
+            match r.below(3) { 0 => wire.extend_from_slice(b"Transfer-Encoding: chunked\r\n"), 1 => wire.extend_from_slice(b"transfer-encoding:\tCHUNKED \r\n"), _ => wire.extend_from_slice(b"Transfer-Encoding: identity\r\nTransfer-Encoding: Chunked\r\n") }
+            wire.extend_from_slice(b"\r\n");
+            let mut rest = &body[..];
+            while !rest.is_empty() {
+                let cap = *r.pick(&[1usize, 7, 300, 70000]);
+                let k = (1 + r.below(cap)).min(rest.len());
+                let size = match r.below(4) { 0 => format!("{:x}", k), 1 => format!("{:X}", k), 2 => format!("{:0>20x}", k), _ => format!(" {:x} ", k) };
+                let ext = *r.pick(&["", ";ext", ";a=\"b c\"", " ; x=1"]);
+                wire.extend_from_slice(size.as_bytes()); wire.extend_from_slice(ext.as_bytes()); wire.extend_from_slice(if r.chance(80) { b"\r\n" } else { b"\n" });
+                wire.extend_from_slice(&rest[..k]); wire.extend_from_slice(if r.chance(80) { b"\r\n" } else { b"\n" });
+                rest = &rest[k..];
+            }
+            wire.extend_from_slice(if r.chance(50) { b"0\r\n\r\n" } else { b"000;last\r\n\r\n" });
+            if r.chance(50) { wire.extend_from_slice(b"5\r\nAFTER\r\n"); }
+            what.push_str("chunked framing");
+        }
+        _ => { wire.extend_from_slice(b"\r\n"); wire.extend_from_slice(&body); what.push_str("close-delimited framing"); }
+    }
+    GenResponse { wire, status, fields, body: payload, what }
+}
+const GEN_SEEDS: [u64; 3] = [0x9E3779B97F4A7C15, 0xD1B54A32D192ED03, 0x2545F4914F6CDD1D];
+const GEN_CASES: usize = 1500;
+
+/// C01 / C03: 4500 generated well-formed responses: the body read through bytes() and through reads of random sizes is exactly
+/// the payload the generator framed
+#[test]
+fn vp_native_generated_responses_body() {
+    use std::io::Read;
+    let mut cases = 0u64;
+    for seed in GEN_SEEDS { let mut r = Rng(seed); for i in 0..GEN_CASES {
+        let g = gen_response(&mut r);
+        let req = PreparedRequest::new(Method::GET, "http://a.test/");
+        let got = parse_response(BaseStream::mock(g.wire.clone()), &req, req.url()).and_then(|x| x.bytes());
+        cases += 1;
+        match got { Ok(b) => assert!(b == g.body, "case {} of seed {:x} ({}): bytes() returned {} bytes, the payload has {}", i, seed, g.what, b.len(), g.body.len()),
+                    Err(e) => panic!("case {} of seed {:x} ({}): {}; head {:?}", i, seed, g.what, e, String::from_utf8_lossy(&g.wire[..g.wire.len().min(300)])) }
+        let mut resp = parse_response(BaseStream::mock(g.wire.clone()), &req, req.url()).unwrap();
+        let mut out = Vec::new();
+        loop { let want = *r.pick(&[0usize, 1, 2, 63, 4096, 100_000]); let mut b = vec![0u8; want]; let k = resp.read(&mut b).unwrap_or_else(|e| panic!("case {} of seed {:x} ({}): read: {}", i, seed, g.what, e)); out.extend_from_slice(&b[..k]); if k == 0 && want > 0 { break; } }
+        assert!(out == g.body, "case {} of seed {:x} ({}): reads delivered {} bytes, the payload has {}", i, seed, g.what, out.len(), g.body.len());
+    } }
+    println!("VP-NATIVE generated_responses_body cases={}", cases);
+}
+
+/// C04: 4500 generated responses (same generator): status code and header fields are what the generator wrote (names case-insensitively,
+/// values apart from surrounding spaces, folds as spaces, repeated fields in order, Transfer-Encoding hidden)
+#[test]
+fn vp_native_generated_responses_head() {
+    let mut cases = 0u64;
+    for seed in GEN_SEEDS { let mut r = Rng(seed); for i in 0..GEN_CASES {
+        let g = gen_response(&mut r);
+        let req = PreparedRequest::new(Method::GET, "http://a.test/");
+        let resp = match parse_response(BaseStream::mock(g.wire.clone()), &req, req.url()) { Ok(x) => x, Err(e) => panic!("case {} of seed {:x} ({}): {}", i, seed, g.what, e) };
+        cases += 1;
+        assert_eq!(resp.status().as_u16(), g.status, "case {} of seed {:x}", i, seed);
+        let mut names: Vec<&str> = g.fields.iter().map(|(n, _)| n.as_str()).collect(); names.sort(); names.dedup();
+        for name in names {
+            let want: Vec<&[u8]> = g.fields.iter().filter(|(n, _)| n == name).map(|(_, v)| &v[..]).collect();
+            let got: Vec<&[u8]> = resp.headers().get_all(name).iter().map(|v| v.as_bytes()).collect();
+            assert!(got == want, "case {} of seed {:x} ({}): field {}: got {:?} want {:?}; head {:?}", i, seed, g.what, name, got, want, String::from_utf8_lossy(&g.wire[..g.wire.len().min(400)]));
+        }
+        assert!(resp.headers().get("transfer-encoding").is_none(), "Transfer-Encoding must be hidden");
+        assert_eq!(resp.headers().len(), g.fields.len(), "case {} of seed {:x}: number of fields", i, seed);
+    } }
+    println!("VP-NATIVE generated_responses_head cases={}", cases);
+}
+
+/// C06: 1500 generated responses whose payload is sent gzip- or deflate-coded (levels 0..9, the coding declared with random
+/// letter case, tabs and blanks, inside a list, or on a second field line; any of the three framings): the caller reads the payload
+#[test]
+fn vp_native_generated_responses_decoded() {
+    let mut cases = 0u64;
+    for seed in GEN_SEEDS { let mut r = Rng(seed); for i in 0..GEN_CASES / 3 {
+        let g = gen_response_coded(&mut r, true);
+        let req = PreparedRequest::new(Method::GET, "http://a.test/");
+        let got = parse_response(BaseStream::mock(g.wire.clone()), &req, req.url()).and_then(|x| x.bytes());
+        cases += 1;
+        match got { Ok(b) => assert!(b == g.body, "case {} of seed {:x} ({}): {} bytes read, the payload has {}; head {:?}", i, seed, g.what, b.len(), g.body.len(), String::from_utf8_lossy(&g.wire[..g.wire.len().min(300)])),
+                    Err(e) => panic!("case {} of seed {:x} ({}): {}; head {:?}", i, seed, g.what, e, String::from_utf8_lossy(&g.wire[..g.wire.len().min(300)])) }
+    } }
+    println!("VP-NATIVE generated_responses_decoded cases={}", cases);
+}
